@@ -61,10 +61,11 @@ def run_group(g, gid):
         rctx = rs.RefCtx()
         ref_new = rs.ref_eval(case.prog, new_state, list(args_s), kw_s, rctx)
         A = inv + list(rctx.support)
+        cs = gfi.check_cases(ref_old, ref_new)
         g.eq(f"update{tag}: result is coherent under the new arguments (constrained hold new, others keep old values)",
-             rs.canon_trace(new), ref_new.canon(), A)
+             rs.canon_trace(new), ref_new.canon(), A, cases=cs)
         g.eq(f"update{tag}: weight == log p(new; new args) - log p(old; old args)", w,
-             gfi.sub(ref_old.get_score(), ref_new.get_score()), A)
+             gfi.sub(ref_old.get_score(), ref_new.get_score()), A, cases=cs)
         g.eq(f"update{tag}: visible choices", ch, ref_new.get_choices(), A)
         g.eq(f"update{tag}: score/retval accessors", (score, retval), (ref_new.get_score(), ref_new.get_retval()), A)
         old_vis = ref_old.get_choices()
@@ -94,7 +95,7 @@ def run_group(g, gid):
                 w_, w2_, backch = T2.outs
                 A2 = inv2 + tie + list(rc2.support)
                 g.eq(f"update{tag}: updating back with the discard restores the choices", backch, ref_old2.get_choices(), A2)
-                g.eq(f"update{tag}: ... with the negated weight", w2_, gfi.neg(w_), A2)
+                g.eq(f"update{tag}: ... with the negated weight", w2_, gfi.neg(w_), A2, cases=gfi.check_cases(ref_old2))
     # Trace.update convenience == explicit call with the stored arguments
     def f3(tr, x):
         n1, w1, _ = tr.update(x)
